@@ -356,6 +356,37 @@ func runC04(w *World, r *Report) {
 					}
 				}
 			})
+			// the drop event is sent by a select that also has the barrier's CloseChan case: a closed barrier (task
+			// stopped) can never emit later
+			{
+				viaSelect, plain := false, false
+				eachInstr(fn, func(in ssa.Instruction) {
+					switch x := in.(type) {
+					case *ssa.Send:
+						if baseObject(fam, x.X) == ssa.Value(al) {
+							plain = true
+						}
+					case *ssa.Select:
+						hasSend, hasClose := false, false
+						for _, st := range x.States {
+							if st.Dir == types.SendOnly && st.Send != nil && baseObject(fam, st.Send) == ssa.Value(al) {
+								hasSend = true
+							}
+							if st.Dir == types.RecvOnly && strings.HasSuffix(w.accessPath(st.Chan), ".CloseChan") {
+								hasClose = true
+							}
+						}
+						if hasSend && hasClose && x.Blocking {
+							viaSelect = true
+						}
+					}
+				})
+				if strings.HasSuffix(shortFn2(fn), "$lit") || fn.Parent() != nil {
+					if viaSelect || plain {
+						r.Check(viaSelect && !plain, "C04-R4", cons+" | sent under the barrier's close case", al.Pos(), "select { case <-CloseChan; case apiEventChan <- event }", "the drop request is sent outside a select that also watches the barrier's CloseChan: when the task is stopped while the event channel is full, the send completes later and a drop request is produced by a stopped task")
+					}
+				}
+			}
 			markedElsewhere := token.NoPos
 			eachInstr(fn, func(in ssa.Instruction) {
 				c, isC := in.(*ssa.Call)
